@@ -3,7 +3,7 @@ From Coq Require Import String Lia.
 From PX.Lib Require Import Base PyStr PyInt.
 From PX.Model Require Import Path Segment Raw Reader.
 From PX.Spec Require Import C01_spec C12_spec.
-From PX.Proofs Require Import C01_raw C01_roundtrip.
+From PX.Proofs Require Import C01_raw C01_roundtrip C12_lemmas.
 
 Local Definition l (s : string) : str := list_ascii_of_string s.
 
@@ -12,14 +12,22 @@ Theorem parse_format_delims_irrelevant :
   forall d1 d2 s, distinct_delims d1 = true -> distinct_delims d2 = true ->
     clean_seg d1 s = true -> clean_seg d2 s = true ->
     parse_seg d1 (format_seg d1 s) = parse_seg d2 (format_seg d2 s).
-Admitted.
+Proof.
+  intros d1 d2 s D1 D2 C1 C2. apply clean_iff in C1, C2.
+  rewrite (parse_format d1 s D1 C1), (parse_format d2 s D2 C2). reflexivity.
+Qed.
 
 (* line breaks after terminators do not change the raw segment strings *)
 Theorem raw_spec_breaks :
   forall d conv segs, distinct_delims d = true -> delims_not_break d = true -> is_break conv = true ->
     forallb (clean_seg d) segs = true -> forallb id_starts_plain segs = true ->
     raw_spec (seg_term d) (encode d conv segs) = raw_spec (seg_term d) (encode d [] segs).
-Admitted.
+Proof.
+  intros d conv segs Hd Hnb Hc Hcl Hp.
+  pose proof (raw_spec_encode d conv Hd Hnb Hc segs [] eq_refl Hcl Hp) as E1.
+  pose proof (raw_spec_encode d [] Hd Hnb eq_refl segs [] eq_refl Hcl Hp) as E2.
+  cbn [app] in E1, E2. rewrite E1, E2. reflexivity.
+Qed.
 
 (* THE THEOREM: the same document (fields f of the header, body) written with two delimiter triples and two
    line-break conventions is read, under any chunking of the input, as the same segments (ISA16 apart) with the
@@ -36,7 +44,17 @@ Theorem reading_delims_layout_independent :
     reading lx (encode d1 conv1 (isa_for d1 f :: body)) sch1 =
     reading lx (encode d2 conv2 (isa_for d2 f :: body)) sch2
     /\ exists v, reading lx (encode d1 conv1 (isa_for d1 f :: body)) sch1 = Ok v.
-Admitted.
+Proof.
+  intros d1 d2 conv1 conv2 f body lx sch1 sch2 D1 D2 N1 N2 K1 K2 Hf C1 C2 B1 B2 Hp Hc.
+  assert (Hb1 : forallb (clean_seg d1) body = true)
+    by (unfold body_ok in B1; apply andb_true_iff in B1 as [H _]; exact H).
+  assert (Hb2 : forallb (clean_seg d2) body = true)
+    by (unfold body_ok in B2; apply andb_true_iff in B2 as [H _]; exact H).
+  rewrite (reading_encode d1 conv1 f body lx sch1 D1 N1 K1 Hf C1 Hb1 Hp).
+  rewrite (reading_encode d2 conv2 f body lx sch2 D2 N2 K2 Hf C2 Hb2 Hp).
+  rewrite (run_indep d1 d2 f body lx D1 D2 Hf C1 C2 B1 B2 Hp Hc).
+  split; [reflexivity|]. eexists. reflexivity.
+Qed.
 
 (* non-vacuity: a two-set interchange with an HL error, written as "~*:" without breaks and as "|^>" with CRLF *)
 Definition ex_fields : list str :=
@@ -58,3 +76,7 @@ Example ex_hyps :
   exists icvn out fin, reading false (encode d2 [ascii_of_nat 13; ascii_of_nat 10] (isa_for d2 ex_fields :: ex_body)) [] = Ok (icvn, out, fin)
                        /\ length out = 8 /\ existsb (fun p => negb (match snd p with [] => true | _ => false end)) out = true.
 Proof. vm_compute. repeat split; try reflexivity. do 3 eexists. repeat split; reflexivity. Qed.
+
+Print Assumptions parse_format_delims_irrelevant.
+Print Assumptions raw_spec_breaks.
+Print Assumptions reading_delims_layout_independent.
